@@ -32,7 +32,7 @@ P_FIELD, P_CALL, P_INNER, P_OUTER, P_GLOBAL, P_OWN = 3, 5, 7, 11, 13, 2
 ALLP = P_FIELD * P_CALL * P_INNER * P_OUTER * P_GLOBAL * P_OWN
 TARGETS = ['int', 'hasconv', 'plain', 'sublist', 'str']
 SHAPES = ['direct', 'list', 'optional', 'dict_value', 'tuple_var', 'union', 'struct', 'nested_dc', 'inherited', 'inherited_own',
-          'list_any', 'dict_any', 'tuple_any', 'generic_subscripted', 'generic_typevar_field', 'dict_any_key']
+          'list_any', 'dict_any', 'tuple_any', 'generic_subscripted', 'generic_typevar_field', 'dict_any_key', 'tagged_variant']
 FORMS = ['callable', 'sequence', 'mapping']
 INNER_MODES = [None, 'own', 'inherited', 'unrelated']      # 'unrelated': the class has custom= handlers, but none for the target type
 
@@ -179,9 +179,23 @@ def shape_type(pane, X, shape):
         return t.Dict[str, t.Any], (lambda d: {'k': d}), (lambda r: r['k'])
     if shape == 'tuple_any':
         return t.Tuple[t.Any, ...], (lambda d: [d]), (lambda r: r[0])
+    if shape == 'tagged_variant':        # the member is a field of a variant of a tagged union (adjacent layout)
+        return _tagged_type(pane, X), (lambda d: {'t': 'a', 'c': {'v': d}}), (lambda r: r.v)
     if shape == 'dict_any_key':          # the member is a KEY of a mapping whose key type is not declared
         return t.Dict[t.Any, int], (lambda d: {d: 0}), (lambda r: next(iter(r)))
     raise KeyError(shape)
+
+
+_TAGGED: t.Dict[t.Any, t.Any] = {}
+
+
+def _tagged_type(pane, X):
+    if X not in _TAGGED:
+        from pane.annotations import Tagged
+        Va = type('TVa', (pane.PaneBase,), {'__annotations__': {'v': X, 'kind': t.Literal['a']}, 'kind': 'a', '__module__': 'mc.generated'})
+        Vb = type('TVb', (pane.PaneBase,), {'__annotations__': {'kind': t.Literal['b'], 'w': int}, 'kind': 'b', 'w': 0, '__module__': 'mc.generated'})
+        _TAGGED[X] = (t.Annotated[t.Union[Va, Vb], Tagged('kind', external=('t', 'c'))], Va)
+    return _TAGGED[X][0]
 
 
 def expected_prime(target, srcs, shape):
@@ -215,7 +229,7 @@ def run_cell(pane, world, res, target, shape, form, mask, inner_mode, only_dir=N
         return
     if srcs['F'] and shape not in ('direct', 'generic_subscripted', 'generic_typevar_field'):
         return
-    if target == 'str' and shape in ('dict_value', 'dict_any', 'struct', 'union', 'generic_subscripted'):
+    if target == 'str' and shape in ('dict_value', 'dict_any', 'struct', 'union', 'generic_subscripted', 'tagged_variant'):
         return      # (the str handler would also take the mapping's own str keys / the union's str member)
     if shape == 'dict_any_key' and target == 'sublist':
         return      # unhashable
@@ -322,7 +336,8 @@ def run_cell(pane, world, res, target, shape, form, mask, inner_mode, only_dir=N
             elif any_shape or shape not in ('direct', 'inherited', 'inherited_own', 'generic_subscripted', 'generic_typevar_field'):
                 container = {'list': lambda: [val, val], 'optional': lambda: val, 'dict_value': lambda: {'k': val}, 'tuple_var': lambda: (val,),
                              'union': lambda: val, 'struct': lambda: {'k': val}, 'list_any': lambda: [val], 'dict_any': lambda: {'k': val},
-                             'tuple_any': lambda: (val,), 'dict_any_key': lambda: {val: 0}}[shape]()
+                             'tuple_any': lambda: (val,), 'dict_any_key': lambda: {val: 0},
+                             'tagged_variant': lambda: _TAGGED[X][1].make_unchecked(v=val)}[shape]()
                 inner_obj = Inner.make_unchecked(f=container)
             else:
                 inner_obj = Inner.make_unchecked(f=val)
@@ -378,6 +393,8 @@ def unwrap_data(shape, leaf):
         return leaf[0]
     if shape == 'dict_any_key':
         return next(iter(leaf))
+    if shape == 'tagged_variant':
+        return leaf['c']['v']
     return leaf
 
 
@@ -500,6 +517,40 @@ def run_role_histories(pane, world, res):
                     break
 
 
+def run_io_entry_points(pane, world, res):
+    """The file readers and writers take custom= too: handlers passed to THOSE calls apply like handlers passed to from_data / into_data."""
+    import io as _io
+    for form in FORMS:
+        h = world.handler(int, P_CALL, form)
+        Cls = type('IoC', (pane.PaneBase,), {'__annotations__': {'f': int, 'g': t.List[int]}, '__module__': 'mc.generated'})
+        cases = [
+            ('from_json', lambda: pane.from_json(_io.StringIO('[1, 1]'), t.List[int], custom=h), [P_CALL, P_CALL]),
+            ('from_yaml', lambda: pane.from_yaml(_io.StringIO('[1, 1]'), t.List[int], custom=h), [P_CALL, P_CALL]),
+            ('from_yaml_all', lambda: pane.from_yaml_all(_io.StringIO('--- 1\n--- 1\n'), int, custom=h), [P_CALL, P_CALL]),
+            ('Cls.from_json', lambda: (lambda r: [r.f] + r.g)(Cls.from_json(_io.StringIO('{"f": 1, "g": [1]}'), custom=h)), [P_CALL, P_CALL]),
+            ('Cls.from_yaml_all', lambda: [r.f for r in Cls.from_yaml_all(_io.StringIO('--- {f: 1, g: []}\n--- {f: 1, g: []}\n'), custom=h)], [P_CALL, P_CALL]),
+            ('write_json', lambda: (lambda b: (pane.write_json([ALLP, ALLP], b, ty=t.List[int], custom=h), __import__('json').loads(b.getvalue()))[1])(_io.StringIO()),
+             [ALLP // P_CALL, ALLP // P_CALL]),
+            ('write_yaml', lambda: (lambda b: (pane.write_yaml([ALLP], b, ty=t.List[int], custom=h), __import__('yaml').safe_load(b.getvalue()))[1])(_io.StringIO()),
+             [ALLP // P_CALL]),
+            ('obj.write_json', lambda: __import__('json').loads(Cls.make_unchecked(f=ALLP, g=[ALLP]).write_json(custom=h)), {'f': ALLP // P_CALL, 'g': [ALLP // P_CALL]}),
+        ]
+        for name, run, want in cases:
+            res['states'] += 1
+            res['evals'] += 1
+            res['validated'] += 1
+            res['transitions'] += 1
+            res['nontrivial'].add(f"io|{name}|{form}")
+            try:
+                got = run()
+            except Exception as e:  # noqa
+                got = f"{type(e).__name__}: {core.sstr(e, 80)}"
+            if got != want:
+                core.add_violation(res, {'kind': 'io_entry_point_ignores_call_handlers', 'entry': name, 'form': form},
+                                   f"{name}(..., custom=<{form} handler for int, prime {P_CALL}>) gave {got!r}, expected {want!r}",
+                                   {'histories': True, 'what': 'io'}, 3)
+
+
 def run_shard(shard, tier):
     pane = core.import_pane()
     warnings.simplefilter('ignore')
@@ -509,6 +560,7 @@ def run_shard(shard, tier):
         run_mapping_exact(pane, world, res)
         run_histories(pane, world, res)
         run_role_histories(pane, world, res)
+        run_io_entry_points(pane, world, res)
         return res
     target, shape = TARGETS[shard['t']], SHAPES[shard['s']]
     for form in FORMS:
